@@ -154,6 +154,15 @@ type c04Case struct {
 	J    int    `json:"j"`
 }
 
+// c04Stop ends the enumeration early once the verdict is already a failure.
+func c04Stop(r *mc.R) bool {
+	if r.Violations() > 40 {
+		r.NotExhaustive("stopped early after more than 40 violations")
+		return true
+	}
+	return false
+}
+
 func c04Near(n int) bool {
 	for _, m := range []int{c04Rate, 2 * c04Rate, 3 * c04Rate} {
 		if n >= m-3 && n <= m+3 {
@@ -218,6 +227,9 @@ func TestVerif_C04_API(t *testing.T) {
 			want := ref[p][n][:32]
 			long := NewKeccakState()
 			var n2, n3, nst int64
+			if c04Stop(r) {
+				return
+			}
 
 			r.Case(c04Case{Kind: "one-argument", Pat: pn, N: n}, func() error {
 				if got := Keccak256(msg); !bytes.Equal(got, want) {
@@ -277,7 +289,7 @@ func TestVerif_C04_API(t *testing.T) {
 				r.DistinctHash(mc.Hash64(fmt.Sprintf("2/%d/%d", n, i)))
 			}
 			if n <= full3 || c04Near(n) {
-				for i := 0; i <= n; i++ {
+				for i := 0; i <= n && !c04Stop(r); i++ {
 					for j := i; j <= n; j++ {
 						r.Case(c04Case{Kind: "three-arguments", Pat: pn, N: n, I: i, J: j}, func() error {
 							if got := Keccak256(msg[:i], msg[i:j], msg[j:]); !bytes.Equal(got, want) {
